@@ -18,7 +18,11 @@ CONFIG = {
                   "reference writer for every input; elide_iff: ^^<dt> is omitted exactly for xsd:string; "
                   "read_write_doc_generated: the property for the generated writer on the toolkit-valid domain; fuel and delimiter "
                   "hypotheses discharged (read_term_fuel, delim_at_writer_positions), every guard of quadOk and delim shown necessary "
-                  "by kernel-checked witnesses): "
+                  "by kernel-checked witnesses; sorted_lines_sound: equal sorted lines of a set container imply a permutation of the "
+                  "quads; sink_ok_iff: a sink of n bytes fails iff the output is longer, whatever the chunking; read_uchar4/8, "
+                  "read_iri_uchar4/8: the grammar reader decodes \\uXXXX / \\UXXXXXXXX for every scalar value, and "
+                  "unescape_quotedAscii / quotedAscii_is_ascii: a reference pure-ASCII escaper round-trips and is ASCII — the "
+                  "oracle the pending ascii mode is judged by): "
                   "unescape(quotedString s) = s for every string; the escaped text has no raw quote, backslash, CR or LF; a "
                   "written quad is exactly one line, a document has one LF per statement and each line reads as its quad on "
                   "its own; the loop of quoted_string run on the UTF-8 bytes of a text writes the UTF-8 encoding of "
@@ -61,7 +65,9 @@ CONFIG = {
                  "each_line_reads",
                  "nsTermEq_iff", "writer_flags_ok", "elide_iff", "writeTermT_eq", "writeQuadT_eq", "writeDocT_eq",
                  "read_write_doc_generated", "read_term_fuel", "guards_necessary", "delim_necessary",
-                 "delim_at_writer_positions"],
+                 "delim_at_writer_positions", "sorted_lines_sound", "sink_ok_iff",
+                 "read_uchar4", "read_uchar8", "read_iri_uchar4", "read_iri_uchar8", "unescape_quotedAscii",
+                 "quotedAscii_is_ascii"],
     # whole-regex side-language obligations (validators vs grammar terminals) are evaluated natively by the
     # verified decision procedure; the round-trip theorems themselves use no native_decide
     "native_ok": ["iri_regex_sub_iriref", "bnode_id_sub_label", "bcp47_sub_langtag", "bcp47_sub_lang_tag",
